@@ -504,6 +504,9 @@ def scatter_sites(repo, col, cl, R, RS):
                                   "overwrites the last row of the array", node=n)
                 # value: val[:, None] of the same entry
                 v = ex.term(n.args[0])
+                # ... given one column per group member: val[:, None] / expand_dims(val, 1) / val.reshape(-1, 1)
+                while v.op == "mcall" and v.name in ("expand_dims", "reshape", "atleast_2d", "asarray") and len(v.args) >= 2:
+                    v = v.args[1] if v.args[0].op == "free" else v.args[0]
                 col.check(v.op == "sub" and T.find(v, lambda x: x.op == "const" and x.name == "val") is not None, R, fi,
                           f"{name}: value scattered is the entry's own `val`", "parameter['val'][:, None]",
                           f"value is {v.short()}", node=n)
@@ -528,7 +531,12 @@ def _strip_drop_remap(ix: T, call: ast.Call, arr_node):
                 repl.args[1].op == "const" and repl.args[1].name == 0:
             target = repl.args[0].args[0]
         out_of_range = target is not None and (arr_node is None or target.key() == arr_node.key())
-        neg = T.find(cond, lambda x: x.op == "cmp" and x.name == "<" and x.args[1].op == "const" and x.args[1].name == 0)
+        # the pad entries are the -1s: `inds < 0`, `inds == -1`, `inds <= -1` (indices are >= 0 otherwise)
+        m1 = lambda a_: (a_.op == "const" and a_.name == -1) or (a_.op == "unary" and a_.name == "USub" and a_.args[0].op == "const" and a_.args[0].name == 1)
+        neg = T.find(cond, lambda x: x.op == "cmp" and len(x.args) == 2 and ((x.name == "<" and x.args[1].op == "const" and x.args[1].name == 0) or
+                                                                          (x.name in ("==", "<=") and m1(x.args[1])) or
+                                                                          (x.name == ">" and x.args[0].op == "const" and x.args[0].name == 0) or
+                                                                          (x.name in ("==", ">=") and m1(x.args[0]))))
         return orig, bool(has_drop and out_of_range and neg is not None)
     return ix, False
 
